@@ -52,6 +52,8 @@ type profile struct {
 	targets    []string
 	posTotals  bool // only positive totals
 	staleP     int  // % of clients that keep using a bar after it left the display
+	narrowP    int  // % of scenarios with a container only a few columns wide
+	emptyMsgP  int  // % of wrapped decorators whose on-complete / on-abort message is empty
 }
 
 var baseProfile = profile{
@@ -94,6 +96,9 @@ func genMixed(seed uint64, fam string, pf profile) *Scenario {
 	sc.Mode = pf.modes[r.Intn(len(pf.modes))]
 	sc.RefreshUS = r.Pick(50, 100, 300, 1000, 3000)
 	sc.Width = pf.width
+	if r.Chance(pf.narrowP, 100) {
+		sc.Width = r.Pick(3, 6, 10, 16, 24) // decorators use up the row: later ones get no room
+	}
 	sc.Pop = r.Chance(pf.popP, 100)
 	sc.Notifier = r.Chance(pf.notifierP, 100)
 	sc.UWG = r.Chance(pf.uwgP, 100)
@@ -145,6 +150,13 @@ func genMixed(seed uint64, fam string, pf profile) *Scenario {
 		}
 		b.Pre = g.randDecs(pf.maxDecs, pf.syncP, pf.slowP)
 		b.App = g.randDecs(pf.maxDecs, pf.syncP, pf.slowP)
+		for _, ds := range [][]DecSpec{b.Pre, b.App} {
+			for di := range ds {
+				if ds[di].Wrap != "" && r.Chance(pf.emptyMsgP, 100) {
+					ds[di].Wrap = r.PickS("oncompleteE", "onabortE")
+				}
+			}
+		}
 		if r.Chance(pf.listenerP, 100) {
 			d := DecSpec{Kind: "listener", Wrap: r.PickS("", "oncomplete", "meta", "deep", "both"), Depth: r.Range(1, 3), Vary: r.Intn(2)}
 			if r.Bool() {
@@ -357,6 +369,7 @@ func genFor(prop, part string, seed uint64) *Scenario {
 	case "C04", "C18":
 		return genC04(seed, part, prop)
 	case "C01":
+		pf.narrowP, pf.emptyMsgP = 15, 30
 		if part == "err" {
 			sc := genC15(seed, common.NewRng(seed).PickS("filler", "filler", "output"))
 			sc.Fam = "C01/err"
@@ -379,6 +392,7 @@ func genFor(prop, part string, seed uint64) *Scenario {
 			pf.slowP = 3
 		}
 	case "C02":
+		pf.narrowP, pf.emptyMsgP = 10, 30
 		if part == "waiters" {
 			return genC02Waiters(seed)
 		}
